@@ -377,6 +377,8 @@ def generate(rng, tier):
             'supp_txt': (rng.choice(SUPP_TXT) if rng.random() < 0.3 else None),
             'supp': ([gen_supp(rng, i) for i in range(rng.randint(1, 3))] if rng.random() < 0.2 else None),
             'species': [gen_species(rng, nm, tame_comp) for nm in names]}
+    if spec['supp'] and rng.random() < 0.4:
+        spec['supp_newline'] = False         # the writer has to terminate the block itself
     return spec
 
 
@@ -468,6 +470,16 @@ def directed(tier):
     names = ['SP%d%s' % (i, rng.choice(['', '(S)', '*', '-a'])) for i in range(200)]
     D.append(F([gen_species(rng, nm, True) for nm in names], write_date=True))
     D.append(F([gen_species(rng, nm, True) for nm in names], input='dict', read_format='dict', output='string'))
+    # 29 mid-sized file, every benign name class
+    rng = random.Random('C05:directed:40')
+    names = []
+    while len(names) < 40:
+        nm = gen_name(rng, BENIGN_CLASSES[len(names) % len(BENIGN_CLASSES)])[:15]
+        if _valid_name(nm) and nm not in names and not _kw(nm):
+            names.append(nm)
+    D.append(F([gen_species(rng, nm, True) for nm in names], read_format='tuple',
+               supp=[dict(gen_supp(rng, 0))], supp_txt='! forty species'))
+    D[-1]['supp_newline'] = False
     return D
 
 
@@ -546,9 +558,14 @@ def build_sp(sp):
         raise core.HarnessError('could not build Nasa: %r' % e)
 
 
-def supp_text(supp):
+def supp_text(supp, newline=True):
     if not supp:
         return None
+    txt = _supp_join(supp)
+    return txt if newline else txt.rstrip('\n')
+
+
+def _supp_join(supp):
     return ''.join(rt.format_entry(s['name'], [tuple(e) for e in s['elements']], s['phase'], s['T_low'],
                                    s['T_high'], s['T_mid'], s['a_low'], s['a_high'], date=s['date'],
                                    style=s['style']) for s in supp)
@@ -954,7 +971,7 @@ def run_case(spec, ctx):
     objs = [build_sp(s) for s in sps]
     coll = {s['name']: o for s, o in zip(sps, objs)} if spec['input'] == 'dict' else list(objs)
     kw = {'write_date': spec['write_date']}
-    st = supp_text(supp)
+    st = supp_text(supp, spec.get('supp_newline', True))
     if st:
         kw['supp_data'] = st
     if spec.get('supp_txt') is not None:
